@@ -84,7 +84,9 @@ def domain():
     return [x, 4, p.Sum((x, 4)), p.Product((shared, shared_eq, shared)), p.Quotient(shared, p.Power(shared_eq, 2)),
             p.Call(trees.F, (x, shared, x)), p.Subscript(trees.A, (x, y)), p.If(p.Comparison(x, "<", y), shared, x),
             p.CommonSubexpression(shared), p.Sum((p.CommonSubexpression(shared), p.CommonSubexpression(shared_eq))),
-            p.Sum((x, -1)), p.Sum((x, -2)), p.Product((p.Sum((x, -1)), p.Sum((x, -2)))), p.Power(x, 2), p.Power(x, 2.0)]
+            p.Sum((x, -1)), p.Sum((x, -2)), p.Product((p.Sum((x, -1)), p.Sum((x, -2)))), p.Power(x, 2), p.Power(x, 2.0),
+            # node types reached through alias methods (map_product = map_sum, map_floor_div = map_quotient, ...), with distinguishable operands
+            p.Product((x, y, 3)), p.FloorDiv(x, y), p.Remainder(p.Sum((x, 1)), y), p.Sum((p.Product((x, y)), p.FloorDiv(y, x), p.Quotient(x, y)))]
 
 
 def pairs():
@@ -236,17 +238,18 @@ def b_optimizer(tier):
     from contracts import fixtures_opt as fx
     from pymbolic.mapper.optimize import optimize_mapper
     b = BoundedRun("optimizer", rule="optimize_mapper under all 32 on/off combinations of (drop_args, drop_kwargs, inline_rec, inline_cache, "
-                   "inline_get_cache_key) applied to fixture mappers (renamer with extra args, cached renamer, plain cached renamer, collector, cached walker whose handlers return None, the stock node counter); "
+                   "inline_get_cache_key) applied to fixture mappers (renamer with extra args, cached renamer, plain cached renamer, collector, cached walker whose handlers return None, the stock node counter, two mappers overriding the target of an inherited alias method but not the alias); "
                    "optimized vs. plain class on the expression set and on histories of length 2 on one instance (results, handler-call counts); "
                    "combinations that drop arguments are exercised only on calls without such arguments; non-trivial = option set with >= 1 option on",
-                   bound="32 option sets x 8 mappers x 15 expressions", functions=["pymbolic.mapper.optimize:optimize_mapper", "_RecInliner", "_VarArgsRemover", "_CacheKeyInliner"])
+                   bound="32 option sets x 10 mappers x 19 expressions", functions=["pymbolic.mapper.optimize:optimize_mapper", "_RecInliner", "_VarArgsRemover", "_CacheKeyInliner"])
     dom = domain()
     opts = ["drop_args", "drop_kwargs", "inline_rec", "inline_cache", "inline_get_cache_key"]
     # (name, class, cached, uses positional extras, uses keyword extras)
     subjects = [("Renamer", fx.Renamer, False, True, True), ("CachedRenamer", fx.CachedRenamer, True, True, True),
                 ("PlainCachedRenamer", fx.PlainCachedRenamer, True, False, False), ("VarCollector", fx.VarCollector, False, True, True),
                 ("KwRenamer", fx.KwRenamer, False, False, True), ("ArgRenamer", fx.ArgRenamer, False, True, False),
-                ("TallyWalker", fx.TallyWalker, True, False, False), ("CountNodes", fx.CountNodes, True, False, False)]
+                ("TallyWalker", fx.TallyWalker, True, False, False), ("CountNodes", fx.CountNodes, True, False, False),
+                ("SumReverser", fx.SumReverser, True, False, False), ("QuotientSwapper", fx.QuotientSwapper, True, False, False)]
     for bits in itertools.product((False, True), repeat=5):
         o = dict(zip(opts, bits))
         for sname, cls, cached, uses_a, uses_k in subjects:
